@@ -112,6 +112,15 @@ def apply_uf(family, arg, vec=False):
                 _assert((a < arg) == (f(a) < t))
                 _assert((a == arg) == (f(a) == t))
             CONFIG.used.add(family + ':mono')
+        if 'hom' in ax:
+            # f(u+v) = f(u) f(v), instantiated for the registered arguments
+            allargs = seen + [arg]
+            for u in allargs:
+                for v in allargs:
+                    for w in allargs:
+                        if w is arg or u is arg or v is arg:
+                            _assert(z3.Implies(w == u + v, f(w) == f(u) * f(v)))
+            CONFIG.used.add(family + ':hom')
         for (fi, go) in CONFIG.inverses:
             # t = fi(arg); if arg is itself go'(x) with go' the inverse family
             if fi == family and z3.is_app(arg) and arg.num_args() == 1:
@@ -126,6 +135,35 @@ def apply_uf(family, arg, vec=False):
                     CONFIG.used.add('%s(%s(x))=x' % (fi, go))
         seen.append(arg)
         return t
+
+
+def note_concrete(family, arg, value):
+    """A concrete application f(arg) = value whose value is exactly representable (e.g.
+    log10(1) = 0, 10**2 = 100) joins the registry, so that monotonicity axioms relate later
+    symbolic arguments to it."""
+    if ch.space() is None or 'mono' not in CONFIG.axioms.get(family, ()):
+        return
+    try:
+        if value != int(value) or abs(value) > 1e6 or arg != arg:
+            return
+        if family in ('log', 'log10', 'log2') and not (arg > 0):
+            return
+    except (OverflowError, ValueError, TypeError):
+        return
+    with ch.NoTracing():
+        a = z3.simplify(_frac(float(arg)), som=True)
+        name = family
+        for nm in ([family + '_vec', family + '_sc'] if CONFIG.tag_paths and family in
+                   ('pow10', 'exp', 'log', 'log10') else [name]):
+            f = uf(nm)
+            seen = _registry().setdefault(nm, [])
+            if any(z3.eq(a, b) for b in seen):
+                continue
+            _assert(f(a) == z3.RealVal(int(value)))
+            for b in seen:
+                _assert((b < a) == (f(b) < f(a)))
+                _assert((b == a) == (f(b) == f(a)))
+            seen.append(a)
 
 
 def _frac(x):
